@@ -52,7 +52,7 @@ PROPS["C03"] = dict(level="exploration", steps=twin("^TestC03", fuzz="FuzzC03"),
 PROPS["C04"] = dict(level="exploration", steps=twin("^TestC04", fuzz="FuzzC03"), needs_twin=True, uses_lz4ref=True, assumptions=TRUST)
 PROPS["C12"] = dict(level="exploration", steps=twin("^TestC12", fuzz="FuzzC03"), needs_twin=True, assumptions=TRUST)
 PROPS["C10"] = dict(level="exploration", steps=simple("^TestC10", shards_quick=2, fuzz="FuzzC10", also386=True), uses_lz4ref=True, assumptions=TRUST)
-PROPS["C11"] = dict(level="exploration", steps=simple("^TestC11", fuzz="FuzzC10", also386=True), assumptions=TRUST)
+PROPS["C11"] = dict(level="exploration", steps=simple("^TestC11", shards_quick=2, fuzz="FuzzC10", also386=True), assumptions=TRUST)
 PROPS["C17"] = dict(level="exploration", steps=simple("^TestC17", variant="bubble", shards_quick=4), default_variant="bubble", assumptions=TRUST + ["testing/synctest (Go 1.26.8): 'all goroutines durably blocked' detection is sound for channel operations; goroutines blocked on a mutex or in a syscall are not covered"])
 
 
